@@ -38,7 +38,7 @@ let parse_fields s =
 
 let parse_op s =
   match String.split_on_char ':' s with
-  | [a; i; c; fs] when a.[0] = 'A' -> OAdd (nz i, nz c, parse_fields fs)
+  | [a; i; c; fs] when a.[0] = 'A' -> OAdd ((a.[1] = 'r'), nz i, nz c, parse_fields fs)
   | ["U"; hc; i; fs] -> OUpdate (nz hc, nz i, parse_fields_opt fs)
   | ["S"; hc; i; f; v] -> OSet (nz hc, nz i, nz f, parse_optval v)
   | ["X"; hc; i; f] -> OUnset (nz hc, nz i, nz f)
@@ -108,6 +108,11 @@ let () =
          let ops = parse_ops opss in
          let show st = if verbose then st else digest st in
          let status = function None -> "ok" | Some x -> str_err x in
+         if String.length mode > 1 && mode.[1] = 'R' then begin
+           (* raw, order-preserving serialisation: compared with vm_compute inside Coq *)
+           let l = if mode.[0] = 'F' then ser_trace e ops else ser_ch_trace e (parse_ops (nth 4)) ops in
+           print_string (String.concat "," (List.map zi l))
+         end else
          if mode.[0] = 'F' then begin
            let tr = trace e empty ops in
            let final = List.fold_left (fun _ (_, s) -> s) empty tr in
